@@ -854,8 +854,23 @@ func runC16(c *CaseCtx) *CaseResult {
 			if err := w.CheckDeep(); err != nil {
 				return "", err
 			}
+			// enumeration (digester pool: the mutable map iterator re-digests keys) and iterator objects
+			if root.Kind == KArr {
+				err = w.checkArrayIterators(root)
+			} else {
+				err = w.checkMapIterators(root)
+			}
+			if err != nil {
+				return "", err
+			}
+			if err := w.checkIteratorObjects(root); err != nil {
+				return "", err
+			}
 			if err := w.Commit(false, 3); err != nil {
 				return "", err
+			}
+			if _, err := atree.CheckStorageHealth(w.ps, 1); err != nil {
+				return "", viol("health", "CheckStorageHealth on a private storage failed: %v", err)
 			}
 			return fmt.Sprintf("%016x-%016x", traceHash(nil, w.trace), regsDigest(w.led.Snapshot())), nil
 		}
